@@ -56,7 +56,7 @@ package proposal
 //@   requires r != nil && proposal != nil && proposal.tracked && proposalSnapshotted(proposal) && proposalWellFormed(proposal) && proposalInv(proposal) && proposalKeyed(proposal)
 //@   requires proposal.Status.Phases.Commit != nil
 //@   requires proposal.Status.PrevIndex < proposal.TransactionIndex
-//@   ensures {C02,C07} merge-only-at-predecessor: cfgValueWrites > old(cfgValueWrites) ==> cfgValueWrites == old(cfgValueWrites) + 1 && readCfgOK && readCfgCommitted == proposal.Status.PrevIndex && old(commitState(proposal)) == configapi.ProposalCommitPhase_COMMITTING
+//@   ensures {C02,C07,C03} merge-only-at-predecessor: cfgValueWrites > old(cfgValueWrites) ==> cfgValueWrites == old(cfgValueWrites) + 1 && readCfgOK && readCfgCommitted == proposal.Status.PrevIndex && old(commitState(proposal)) == configapi.ProposalCommitPhase_COMMITTING
 //@   ensures {C02,C07} merge-moves-committed-index: cfgValueWrites > old(cfgValueWrites) && err == nil ==> storedCfgCommitted == proposal.TransactionIndex
 //@   ensures {C01} commit-cannot-fail: old(commitState(proposal)) == configapi.ProposalCommitPhase_COMMITTING && err == nil && readCfgOK ==> commitState(proposal) == configapi.ProposalCommitPhase_COMMITTED
 //@   ensures {C01,C02} committed-only-after-merge-or-skip: commitState(proposal) == configapi.ProposalCommitPhase_COMMITTED && old(commitState(proposal)) == configapi.ProposalCommitPhase_COMMITTING ==> readCfgOK && (readCfgCommitted != proposal.Status.PrevIndex || storedCfgCommitted == proposal.TransactionIndex)
